@@ -87,3 +87,105 @@ fn default_checksum() {
     let c = Checksum::default();
     assert!(c.value == 0);
 }
+
+/// shims D8 (slices): `copy_within`, `[a..b].copy_from_slice`, `[u8; 4]::copy_from_slice` and by-value
+/// array iteration behave as the prelude contracts say -- BOUNDED cross-check: slices of 6 bytes, every
+/// (from, to, dest) / (from, to, src length).  The `_refuses` harnesses (refusal mode) show that a call
+/// outside what the contract's ensures states never returns.
+fn cw_valid(from: usize, to: usize, dest: usize) -> bool { from <= to && to <= 6 && dest + (to - from) <= 6 }
+#[kani::proof]
+#[kani::unwind(8)]
+fn shim_copy_within() {
+    let a: [u8; 6] = kani::any();
+    let (from, to, dest): (usize, usize, usize) = (kani::any(), kani::any(), kani::any());
+    kani::assume(from <= 7 && to <= 7 && dest <= 7);
+    kani::assume(cw_valid(from, to, dest));
+    let mut s = a;
+    s.copy_within(from..to, dest);
+    let mut i = 0;
+    while i < 6 {
+        let want = if dest <= i && i < dest + (to - from) { a[i - dest + from] } else { a[i] };
+        assert!(s[i] == want);
+        i += 1;
+    }
+}
+#[kani::proof]
+#[kani::unwind(8)]
+fn shim_copy_within_refuses() {
+    let mut s: [u8; 6] = kani::any();
+    let (from, to, dest): (usize, usize, usize) = (kani::any(), kani::any(), kani::any());
+    kani::assume(from <= 7 && to <= 7 && dest <= 7);
+    kani::assume(!cw_valid(from, to, dest));
+    s.copy_within(from..to, dest);
+    assert!(false, "VERIF-RETURNED: copy_within accepted a range the contract excludes");
+}
+#[kani::proof]
+#[kani::unwind(8)]
+fn shim_copy_into() {
+    let a: [u8; 6] = kani::any();
+    let src_full: [u8; 6] = kani::any();
+    let (from, to, n): (usize, usize, usize) = (kani::any(), kani::any(), kani::any());
+    kani::assume(from <= to && to <= 6 && n == to - from);
+    let mut s = a;
+    s[from..to].copy_from_slice(&src_full[..n]);
+    let mut i = 0;
+    while i < 6 {
+        let want = if from <= i && i < to { src_full[i - from] } else { a[i] };
+        assert!(s[i] == want);
+        i += 1;
+    }
+    let mut d4: [u8; 4] = kani::any();
+    d4.copy_from_slice(&src_full[..4]);
+    assert!(d4 == [src_full[0], src_full[1], src_full[2], src_full[3]]);
+}
+#[kani::proof]
+#[kani::unwind(8)]
+fn shim_copy_into_refuses() {
+    let mut s: [u8; 6] = kani::any();
+    let src_full: [u8; 6] = kani::any();
+    let (from, to, n): (usize, usize, usize) = (kani::any(), kani::any(), kani::any());
+    kani::assume(from <= 7 && to <= 7 && n <= 6);
+    let which: bool = kani::any();
+    if which {
+        kani::assume(!(from <= to && to <= 6 && n == to - from));
+        s[from..to].copy_from_slice(&src_full[..n]);
+    } else {
+        kani::assume(n != 4);
+        let mut d4: [u8; 4] = kani::any();
+        d4.copy_from_slice(&src_full[..n]);
+    }
+    assert!(false, "VERIF-RETURNED: copy_from_slice accepted lengths the contract excludes");
+}
+#[kani::proof]
+#[kani::unwind(10)]
+fn shim_arr_into_vec() {
+    let a: [u8; 8] = kani::any();
+    let mut got: Vec<u8> = Vec::new();
+    for b in a { got.push(b); }                     // by-value iteration yields the elements in order
+    assert!(got.len() == 8);
+    let mut i = 0;
+    while i < 8 { assert!(got[i] == a[i]); i += 1; }
+}
+
+/// shims D8 (str): starts_with(char), &s[off..] and len() on ASCII strings behave as the prelude
+/// contracts say -- BOUNDED cross-check: strings of at most 4 bytes.  (`split(char).collect()` was tried
+/// and is beyond CBMC here: no verdict in 600 s; it stays an assumption.)
+#[kani::proof]
+#[kani::unwind(7)]
+fn shim_str_ops() {
+    let raw: [u8; 4] = kani::any();
+    let n: usize = kani::any();
+    kani::assume(n <= 4);
+    let mut k = 0;
+    while k < 4 { kani::assume(raw[k] < 128); k += 1; }
+    // SAFETY: ASCII bytes are valid UTF-8
+    let s: &str = unsafe { core::str::from_utf8_unchecked(&raw[..n]) };
+    assert!(s.len() == n);
+    assert!(s.starts_with('\\') == (n > 0 && raw[0] == b'\\'));
+    let off: usize = kani::any();
+    kani::assume(off <= n);
+    let t = &s[off..];
+    assert!(t.len() == n - off);
+    let mut i = 0;
+    while i < n - off { assert!(t.as_bytes()[i] == raw[off + i]); i += 1; }
+}
